@@ -29,6 +29,7 @@ def c12Line (fs : List (List Char)) : String :=
       | ["R", c] => c.toNat?.map Op.rd
       | ["W", c, k] => do let c ← c.toNat?; let k ← k.toInt?; pure (Op.wr c k)
       | ["F", p] => p.toNat?.map Op.viaParam
+      | ["B", p, k] => do let p ← p.toNat?; let k ← k.toInt?; pure (Op.mutRet p k)
       | _ => none
     match impls, conc, ifs, opl with
     | some t, some c, some iface, some os =>
